@@ -212,3 +212,128 @@ def angle_param_rule(rep, f, pname, rule='R-UNITS'):
         rep.holds(rule, key, w, 'every read of %s is an argument of angular_typecheck' % pname)
     else:
         rep.holds(rule, key, w, '%s is converted by angular_typecheck (line %d) before any other use' % (pname, converted_line))
+
+
+ELLIPSOIDS = {'grs80': (6378137, '298.257222101', 'EPSG 7019'), 'wgs84': (6378137, '298.257223563', 'EPSG 7030'),
+              'ans': (6378160, '298.25', 'EPSG 7003'), 'intl24': (6378388, '297', 'EPSG 7022')}
+PROJECTIONS = {'utm': (500000, 10000000, '0.9996', 6, -177), 'isg': (300000, 5000000, '0.99994', 2, -177)}
+
+
+def ellipsoid_rules(repo, rep, projections=False):
+    """the shipped ellipsoids carry their defining constants (semi-major axis, inverse flattening) and the class derives the rest correctly"""
+    from fractions import Fraction as F
+    from ..symval import Evaluator, Obj
+    from ..symcheck import check_equal
+    m = repo.module('geodepy.constants')
+    ev = Evaluator(repo)
+    wm = 'geodepy/constants.py:1'
+    for name, (a, invf, src) in sorted(ELLIPSOIDS.items()):
+        o = ev.global_value(m, name)
+        key = 'R-TABLE::geodepy/constants.py::%s' % name
+        if not isinstance(o, Obj):
+            rep.undecided('R-TABLE', key, wm, 'constant %s is not an Ellipsoid object' % name)
+            continue
+        ga, gf = o.fields.get('semimaj'), o.fields.get('inversef')
+        fa = ga.as_fraction() if isinstance(ga, Rat) else None
+        ff = gf.as_fraction() if isinstance(gf, Rat) else None
+        if fa == F(a) and ff == F(invf):
+            rep.holds('R-TABLE', key, wm, '%s: a = %d m, 1/f = %s (%s)' % (name, a, invf, src))
+        else:
+            rep.violated('R-TABLE', key, wm, '%s is defined with a = %s, 1/f = %s; its defining constants are a = %d, 1/f = %s (%s)' % (
+                name, float(fa) if fa is not None else ga, float(ff) if ff is not None else gf, a, invf, src), expected='%d, %s' % (a, invf), actual='%s, %s' % (fa, ff))
+    # derived quantities of the class, symbolically
+    cls = m.classes.get('Ellipsoid')
+    if cls is not None:
+        A, I = Rat.sym('a'), Rat.sym('invf')
+        o = ev.construct(cls, [A, I], {}, None)
+        f = C(1) / I
+        e2 = f * (C(2) - f)
+        want = {'f': f, 'semimin': A * (C(1) - f), 'ecc1sq': e2, 'ecc2sq': e2 / (C(1) - e2), 'n': f / (C(2) - f), 'n2': (f / (C(2) - f)).ipow(2),
+                'ecc1': alg.sqrt(e2), 'meanradius': (C(2) * A + A * (C(1) - f)) / C(3)}
+        init = cls.init()
+        for k, w_ in sorted(want.items()):
+            if k in o.fields:
+                check_equal(rep, 'R-TABLE', 'R-TABLE::geodepy/constants.py::Ellipsoid.%s' % k, where(init, init.node), o.fields[k], w_,
+                            'Ellipsoid.%s derived from the semi-major axis and the inverse flattening' % k)
+    if projections:
+        for name, vals in sorted(PROJECTIONS.items()):
+            o = ev.global_value(m, name)
+            key = 'R-TABLE::geodepy/constants.py::%s' % name
+            if not isinstance(o, Obj):
+                rep.undecided('R-TABLE', key, wm, 'constant %s is not a Projection object' % name)
+                continue
+            got = [o.fields.get(k) for k in ('falseeast', 'falsenorth', 'cmscale', 'zonewidth', 'initialcm')]
+            gf = [g.as_fraction() if isinstance(g, Rat) else None for g in got]
+            if gf == [F(v) for v in vals]:
+                rep.holds('R-TABLE', key, wm, '%s: false easting %s, false northing %s, k0 %s, zone width %s, first central meridian %s' % ((name,) + vals))
+            else:
+                rep.violated('R-TABLE', key, wm, '%s is defined as %s; the grid is defined by %s' % (name, [float(x) if x is not None else None for x in gf], list(vals)),
+                             expected=str(list(vals)), actual=str(gf))
+
+
+ANGLE_CLASSES = ('DMSAngle', 'DDMAngle', 'DECAngle', 'HPAngle', 'GONAngle')
+
+
+def typecheck_rules(repo, rep):
+    """angular_typecheck (frozen as a summary in the formula rules: object -> .dec(), number -> itself) is what it is frozen as, for every
+    class and for every value including zero"""
+    from ..symval import Evaluator, CallV
+    from ..symcheck import check_equal, compare_values, show
+    m = repo.module('geodepy.angles')
+    f = m.func('angular_typecheck')
+    rep.analysed(f)
+    w = where(f, f.node)
+    for cn in ANGLE_CLASSES:
+        ev = Evaluator(repo, opaque={cn + '.dec'})
+        ev.summaries.pop('angular_typecheck', None)
+        o = ev.symbolic_object(m.classes[cn], 'ang', origin='param:ang')
+        got = ev.call_function(f, {f.params[0].name: o})
+        want = ev.invoke(m.classes[cn].methods['dec'], [o], {}, None)
+        key = 'R-DISPATCH::geodepy/angles.py::angular_typecheck::%s' % cn
+        g = got.rat if isinstance(got, CallV) else got
+        wv = want.rat if isinstance(want, CallV) else want
+        truthy_of_value = False
+        if isinstance(g, Rat) and isinstance(wv, Rat):
+            wid = set(wv.atoms(deep=False))
+            for i in g.atoms(deep=True):
+                a = alg.TABLE.atoms[i]
+                if a.kind == 'fn' and a.name == 'truthy' and a.args and isinstance(a.args[0], Rat) and wid & set(a.args[0].atoms(deep=True)):
+                    truthy_of_value = True
+        if truthy_of_value:
+            rep.violated('R-DISPATCH', key, w, 'angular_typecheck(%s object) depends on the truthiness of the angle value: an angle of exactly zero takes another path '
+                         '(%s)' % (cn, show(got, 3, 160)), expected='obj.dec() for every value', actual=show(got, 3, 200))
+        elif compare_values(g, wv) == 'equal':
+            rep.holds('R-DISPATCH', key, w, '%s objects are converted by their .dec()' % cn)
+        else:
+            rep.undecided('R-DISPATCH', key, w, 'angular_typecheck(%s object) = %s' % (cn, show(got, 3, 160)))
+    ev = Evaluator(repo)
+    ev.summaries.pop('angular_typecheck', None)
+    ev.fold_const_types = True
+    x = Rat.sym('x')
+    got = ev.call_function(f, {f.params[0].name: x})
+    key = 'R-DISPATCH::geodepy/angles.py::angular_typecheck::number'
+    if isinstance(got, Rat):
+        # under "x is a plain number": every type test against an angle class is false
+        g = got
+        for i in list(g.atoms(deep=True)):
+            a = alg.TABLE.atoms[i]
+        r = alg.decide_equal(strip_type_tests(got), x)
+        if r == 'equal':
+            rep.holds('R-DISPATCH', key, w, 'a plain number passes through float() unchanged')
+        elif r == 'different':
+            rep.violated('R-DISPATCH', key, w, 'angular_typecheck(number) is not the number: %s' % show(got, 3, 160), expected='x', actual=show(got, 3, 200))
+        else:
+            rep.undecided('R-DISPATCH', key, w, 'angular_typecheck(number) = %s' % show(got, 3, 160))
+    else:
+        rep.undecided('R-DISPATCH', key, w, 'angular_typecheck(number) = %s' % show(got, 3, 160))
+
+
+def strip_type_tests(r):
+    """replace ite(<type test of a plain number against a repo class>, a, b) by b"""
+    from ..symval import _single_atom
+    a = _single_atom(r) if isinstance(r, Rat) else None
+    if a is not None and a.kind == 'fn' and a.name == 'ite' and isinstance(a.args[0], Rat):
+        txt = alg.fmt(a.args[0], 6)
+        if 'type(' in txt and 'geodepy/angles.py::' in txt:
+            return strip_type_tests(a.args[2])
+    return r
